@@ -10,7 +10,7 @@ from .gen import ws
 
 # scenarios in which the implementation is known / expected to deviate from the property's rule;
 # a query tagged with one of them gets the tag appended to its oracle signature
-DEVIATIONS = ["forward", "uses-member", "uses-entry", "rettype"]
+DEVIATIONS = ["typeref-shadowed", "forward", "uses-member", "uses-entry", "rettype"]
 
 
 class Case:
